@@ -108,6 +108,7 @@ func (m *UnboundedMailbox) Dequeue() *ReceiveContext {
 	// above may still hold a pointer to the old head and atomically
 	// load its next field via IsEmpty/Len. The reset here must match
 	// that with an atomic store.
+	verifhook.At("ctx.recycle", head, 0, 0)
 	head.reset()
 	atomic.StorePointer(&head.next, nil)
 	select {
